@@ -6,10 +6,11 @@
     (and, for that family, exactness), Monotone, NoDangling, RetainGids, ShapingPreserved (OTLSem
     shaping of every text up to length 3 over the retained characters), LfpIsLeast.  The same runs
     emit the (font, request, options) cases (GEN).
-(R) every emitted case (a seeded sample in the quick tier) is realised as a real TrueType font
+(R) every emitted case (in the quick tier a seeded sample, stratified by the number of glyphs the GSUB
+    closure has to add, which TLC emits with the case) is realised as a real TrueType font
     (FontBuilder + otTables), projected back (must equal the abstract font), pushed through the
     real Subsetter; the run is recorded and judged like (V), and in addition TLC shapes every text
-    up to length 3 with OTLSem on the projections of the original and of the result.
+    up to length 2 with OTLSem on the projections of the original and of the result.
 (V) every corpus font x seeded requests x a pairwise covering of the options: the projected ORIGINAL
     font, the request/options, the staged glyph sets read from the Subsetter object, the glyph
     order / index map, the glyph ids every table of the saved RESULT mentions, HarfBuzz shaping of
@@ -470,19 +471,24 @@ def probe_scripts(pf, optd, osys, ressys):
 def rule_glyph_seqs(pf, rng, limit, allowed):
     """Glyph sequences that trigger the rules of the ORIGINAL font: for every rule its input sequence, with and
     without its context (one representative glyph per class/coverage position, chosen by rng among the glyphs
-    that a retained character maps to)."""
+    that a retained character maps to; rules that no such text can reach are left out)."""
     seqs = []
+    ok = lambda g: g in allowed
 
     def pick(s):
         s = [g for g in s if g in allowed]
         return rng.choice(s) if s else None
+
+    def some(rows, k):
+        rows = [r for r in rows if ok(r[0])]
+        return rows if len(rows) <= k else rng.sample(rows, k)
 
     for tb in ("gsub", "gpos"):
         for lk in pf["L"][tb]["lookups"]:
             ty = lk["ty"]
             for st in lk["st"]:
                 if ty in ("sub1", "sub2", "sub3", "pos1"):
-                    for e in st["m"]:
+                    for e in some(st["m"], 12):
                         seqs.append([e[0]])
                 elif ty == "sub4":
                     for comps, _lig in st["l"]:
@@ -496,28 +502,31 @@ def rule_glyph_seqs(pf, rng, limit, allowed):
                         seqs.append(i)
                 elif ty == "rsub":
                     for r in st["r"]:
-                        for e in r["m"][:4]:
+                        for e in some(r["m"], 4):
                             seqs.append([pick(s) for s in reversed(r["b"])] + [e[0]] + [pick(s) for s in r["a"]])
                 elif ty == "pos2":
                     if st["f"] == 1:
-                        for e in st["p"]:
+                        for e in some([e for e in st["p"] if ok(e[1])], 24):
                             seqs.append([e[0], e[1]])
                     else:
-                        for e in st["c"][:40]:
+                        for e in st["c"][:60]:
                             seqs.append([pick(e[0]), pick(e[1])])
                 elif ty == "curs":
-                    ex = [e[0] for e in st["m"] if e[2]]
-                    en = [e[0] for e in st["m"] if e[1]]
+                    ex = [e[0] for e in st["m"] if e[2] and ok(e[0])]
+                    en = [e[0] for e in st["m"] if e[1] and ok(e[0])]
                     for x in ex[:6]:
                         seqs.append([x, pick(en)])
                 elif ty in ("mkb", "mkm"):
-                    for b in st["bases"][:6]:
-                        for m in st["marks"][:3]:
-                            seqs.append([b[0], m[0]])
-                            seqs.append([b[0], m[0], pick(st["marks"])[0]])
+                    marks = [m[0] for m in st["marks"]]
+                    classes = sorted({m[1] for m in st["marks"]})
+                    for b in some(st["bases"], 6):
+                        for c in classes:  # one mark of every class the retained marks still have
+                            m = pick([x[0] for x in st["marks"] if x[1] == c])
+                            seqs.append([b[0], m])
+                            seqs.append([b[0], m, pick(marks)])
                 elif ty == "mkl":
-                    for l in st["ligs"][:6]:
-                        for m in st["marks"][:3]:
+                    for l in some(st["ligs"], 6):
+                        for m in some(st["marks"], 3):
                             seqs.append([l[0], m[0]])
     seqs = [s for s in seqs if s and None not in s and all(g in allowed for g in s)]
     uniq = []
@@ -575,6 +584,11 @@ def _opts(optd):
     return o
 
 
+def escapes(uns):
+    """Domain OriginalRefersOutsideGlyphSet: some lookup of the original font outputs a glyph the font does not have."""
+    return any("outside probe universe" in r for _w, r in uns)
+
+
 def sfnt_bytes(data, font_number):
     """(bytes, face index) HarfBuzz can read: WOFF / WOFF2 wrappers are removed (same tables, flavor None)."""
     if data[:4] in (b"wOFF", b"wOF2"):
@@ -599,8 +613,17 @@ def run_subsetter(data, font_number, req, optd):
     s = subset.Subsetter(o)
     s.populate(glyphs=req.get("glyphs", []), gids=req.get("gids", []), unicodes=req.get("unicodes", []), text=req.get("text", ""))
     s.subset(font)
+    # what the subsetter itself produced, before the table codecs: the Unicode cmap (by new glyph number)
+    mem = {"mcmap": set(), "fmt2": False}
+    if "cmap" in font:
+        for t in font["cmap"].tables:
+            if t.isUnicode() and t.format != 14:
+                mem["mcmap"].update((int(u), font.getGlyphID(g) + 1) for u, g in t.cmap.items())
+                if t.format == 2 and t.cmap and max(t.cmap) < 256:
+                    mem["fmt2"] = True
     buf = io.BytesIO()
     subset.save_font(font, buf, o)
+    s.verif_mem = mem
     return s, order0, buf.getvalue()
 
 
@@ -615,6 +638,8 @@ def record_case(data, font_number, pf, req, optd, rng, kind, label, nprobe=40, n
     try:
         # the request and the options as the specification sees them: glyph numbers and code points
         n0 = pf["n"]
+        orig = TTFont(io.BytesIO(data), fontNumber=font_number)
+        pf_names = {g: i + 1 for i, g in enumerate(orig.getGlyphOrder())}
         rg = sorted({pf_names[g] for g in req.get("glyphs", []) if g in pf_names} | {i + 1 for i in req.get("gids", []) if i < n0})
         us = sorted(set(req.get("unicodes", [])) | {ord(c) for c in req.get("text", "")})
         feats = optd["layout_features"]
@@ -651,11 +676,11 @@ def record_case(data, font_number, pf, req, optd, rng, kind, label, nprobe=40, n
             "staged": staged, "order": order, "imap": imap, "nres": nres,
             "refs": [[k, v] for k, v in sorted(refs.items())],
             "rcmap": [list(p) for p in sorted(rcmap)],
+            "mcmap": [list(p) for p in sorted(s.verif_mem["mcmap"])], "fmt2": s.verif_mem["fmt2"],
             "tables": sorted(res.keys()),
         }
         # ---- shaping observations -------------------------------------------------
         retained_chars = {u for u, _g in rcmap}
-        orig = TTFont(io.BytesIO(data), fontNumber=font_number)
         hdata, hidx = sfnt_bytes(data, font_number)  # HarfBuzz reads plain sfnt / collections only
         locs = var_locations(orig)
         by_glyph = {}
@@ -670,7 +695,12 @@ def record_case(data, font_number, pf, req, optd, rng, kind, label, nprobe=40, n
         scripts, nsk = probe_scripts(pf, optd, layout_systems(orig), layout_systems(res))
         if nsk:
             skips["shaping under a language system the shaper selects differently after pruning (ScriptPrunedFallback)"] = nsk
-        alts = [1, 2] if any(lk["ty"] == "sub3" for lk in pf["L"]["gsub"]["lookups"]) else [1]
+        # second alternates: value 2 for (at most 10) features that reach an AlternateSubst lookup.  HarfBuzz stores
+        # feature values in a 32-bit mask (2 bits per feature of value 2): asking for more than fit makes it drop
+        # features, and which ones depends on the features each font has (named shaper limit HBMaskBits).
+        G = pf["L"]["gsub"]
+        alt_tags = sorted({str(e[2]) for e in G["fl"] if any(0 < i <= len(G["lookups"]) and G["lookups"][i - 1]["ty"] == "sub3" for i in e[3])})[:10]
+        alts = [1, 2] if alt_tags else [1]
         shapes = []
         dotted = {g for u, g in pf["cmap"] if u == 0x25CC}
         sh = {}
@@ -691,7 +721,7 @@ def record_case(data, font_number, pf, req, optd, rng, kind, label, nprobe=40, n
             A, B = sh[li]
             for sc, la in scripts[:3]:
                 for alt in alts:
-                    fs = {t: (v * alt) for t, v in features.items()}
+                    fs = {t: (v * alt if t in alt_tags else v) for t, v in features.items()}
                     for t in texts:
                         a = A.shape(codepoints=t, features=fs, script=sc, language=la)
                         if dotted and any(x[0] + 1 in dotted for x in a):
@@ -710,14 +740,19 @@ def record_case(data, font_number, pf, req, optd, rng, kind, label, nprobe=40, n
         hm0 = orig["hmtx"].metrics if "hmtx" in orig else {}
         hm1 = res["hmtx"].metrics if "hmtx" in res else {}
         names1 = res.getGlyphOrder()
-        shapers = {li: (hb.Shaper(data, loc, index=max(font_number, 0)), hb.Shaper(out, loc)) for li, loc in enumerate(locs)}
+        shapers = {li: (hb.Shaper(hdata, loc, index=hidx), hb.Shaper(out, loc)) for li, loc in enumerate(locs)}
+        cls0 = pf["L"]["gdef"]["cls"]
+        cls1 = {}
+        if "GDEF" in res and res["GDEF"].table.GlyphClassDef is not None:
+            cls1 = res["GDEF"].table.GlyphClassDef.classDefs
         for g in cand:
             new = imap[g - 1]
             if new < 0 or new >= nres:
                 continue  # RequestedPresent / order clauses report this
             m0 = hm0.get(order0[g - 1], (0, 0))
             m1 = hm1.get(names1[new], (0, 0))
-            rec = {"g": g, "adv": [m0[0], m1[0]], "lsb": [m0[1], m1[1]], "loc": []}
+            rec = {"g": g, "adv": [m0[0], m1[0]], "lsb": [m0[1], m1[1]], "loc": [],
+                   "cls": [cls0[g - 1] if cls0 else 0, int(cls1.get(names1[new], 0))]}
             for li, (A, B) in shapers.items():
                 oa = intern(repr(A.draw_glyph(g - 1)))
                 ob = intern(repr(B.draw_glyph(new)))
@@ -840,6 +875,16 @@ def _font_for_tlc(pf, full):
     return f
 
 
+def corpus_bytes(path):
+    """Bytes of a corpus font: binaries as they are, whole-font TTX compiled by the library."""
+    if path.endswith(".ttx"):
+        from . import fonts
+
+        return fonts.compile_ttx(path)
+    with open(path, "rb") as f:
+        return f.read()
+
+
 def corpus_job(job):
     """One corpus font: project once, run its (request, options) cases."""
     import random
@@ -850,8 +895,9 @@ def corpus_job(job):
     label = "%s#%d" % (common.rel(path), idx) if idx >= 0 else common.rel(path)
     logging.disable(logging.CRITICAL)
     try:
-        with open(path, "rb") as f:
-            data = f.read()
+        data = corpus_bytes(path)
+        if data is None:
+            return {"label": label, "skip": "corpus TTX the library cannot compile", "cases": []}
         try:
             font = TTFont(io.BytesIO(data), fontNumber=idx)
             order = font.getGlyphOrder()
@@ -869,7 +915,7 @@ def corpus_job(job):
         optd = concretise(optrows[(k + rng.randrange(len(optrows))) % len(optrows)] if k >= 3 else
                           dict(optrows[k % len(optrows)], layout_features=["*"], layout_closure=True, layout_scripts=["*"]), pf, rng)
         rq = {k2: v for k2, v in req.items() if k2 != "kind"}
-        trace, sk = record_case(data, idx, pf, rq, optd, rng, "V", label, nprobe=nprobe)
+        trace, sk = record_case(data, idx, pf, rq, optd, rng, "V", label, nprobe=nprobe, esc=escapes(uns))
         for r, c in sk.items():
             skips[r] = skips.get(r, 0) + c
         trace["replay"] = {"mode": "V", "path": common.rel(path), "idx": idx, "req": rq, "opts": optd, "reqkind": req["kind"]}
@@ -906,7 +952,7 @@ def gen_job(job):
         else:
             req["gids"] = [g - 1 for g in gl]
     trace, _sk = record_case(data, -1, pf, req, optd, rng, "R", "gen-%d" % k, nprobe=24, full_result=True)
-    trace["replay"] = {"mode": "R", "case": case, "k": k}
+    trace["replay"] = {"mode": "R", "case": {x: case[x] for x in ("font", "req", "opts")}, "k": k}
     return {"font": pf, "trace": trace}
 
 
@@ -914,7 +960,9 @@ def gen_job(job):
 # judging and reporting
 # ---------------------------------------------------------------------------
 def judge(chk, fonts, traces, label, chunk=1500):
-    """traces carry `font` = 1-based index into fonts.  Returns [(trace, clause, detail)]."""
+    """traces carry `font` = 1-based index into fonts.  Returns [(trace, clause, detail)] for the rejected ones.
+    TLC (Trace_C07) decides everything: ACC (with the number of shaping observations it compared), REJ with a
+    clause, where the clauses `domain:*` mean "outside the property's domain" (counted as skipped)."""
     rejected = []
     for base in range(0, len(traces), chunk):
         part = traces[base: base + chunk]
@@ -925,11 +973,30 @@ def judge(chk, fonts, traces, label, chunk=1500):
             u = {k: v for k, v in t.items() if k != "replay"}
             u["font"] = remap[t["font"]]
             slim.append(u)
-        r = chk.judge_steps("Trace_C07", slim, meta={"fonts": [fonts[f - 1] for f in used]}, chunk=len(slim), label=label,
-                            timeout=1500, heap="8g")
-        where = {id(u): k for k, u in enumerate(slim)}
-        for u, clause, pos in r:
-            rejected.append((part[where[id(u)]], clause, pos))
+        if os.environ.get("VERIF_C07_KEEP"):  # development aid: keep the judge's input
+            import json
+
+            with open(os.path.join(os.environ["VERIF_C07_KEEP"], "%s-%d.json" % (label.replace("(", "_").replace(")", ""), base)), "w") as f:
+                json.dump({"meta": {"fonts": [fonts[f2 - 1] for f2 in used]}, "traces": slim, "replays": [t.get("replay") for t in part]}, f)
+        r = chk.tlc("Trace_C07", traces={"meta": {"fonts": [fonts[f - 1] for f in used]}, "traces": slim}, label=label,
+                    workers=TLC_WORKERS, timeout=1500, heap="8g")
+        rej = {}
+        for payload in r.rej:
+            rej.setdefault(payload[0], (payload[1], payload[2] if len(payload) > 2 else 0))
+        acc = {p[0]: (p[1] if len(p) > 1 else 0) for p in r.prints.get("ACC", [])}
+        for i, t in enumerate(part, 1):
+            if i in rej:
+                clause, pos = rej[i]
+                if clause.startswith("domain:"):
+                    chk.skip("request outside the domain (%s)" % clause[7:])
+                    t["outside"] = True
+                else:
+                    rejected.append((t, clause, pos))
+            elif i in acc:
+                chk.traces_validated += 1
+                chk.notes["shaping_observations_compared"] = chk.notes.get("shaping_observations_compared", 0) + int(acc[i])
+            else:
+                raise MachineryError("Trace_C07: trace %d neither accepted nor rejected" % i)
     return rejected
 
 
@@ -961,7 +1028,7 @@ def nontrivial(t, font):
 
 def run_model(chk):
     thorough = chk.tier == "thorough"
-    cfgs = ["MC_Subset_thorough", "MC_Subset_opts_thorough"] if thorough else ["MC_Subset", "MC_Subset_opts"]
+    cfgs = ["MC_Subset_thorough", "MC_Subset_opts_thorough", "MC_Subset_pass"] if thorough else ["MC_Subset", "MC_Subset_opts", "MC_Subset_pass"]
     import json
 
     gens = []
@@ -995,15 +1062,41 @@ def run_model(chk):
     return gens
 
 
+def _preload():
+    """Import everything the forked workers need once, in the parent (saves seconds of import time per worker)."""
+    import fontTools.subset, fontTools.subset.cff, fontTools.fontBuilder, fontTools.pens.ttGlyphPen  # noqa: F401
+    import fontTools.otlLib.builder, fontTools.ttLib.woff2, fontTools.varLib.varStore  # noqa: F401
+    from fontTools.ttLib import ttFont
+
+    for tag in ("GSUB", "GPOS", "GDEF", "cmap", "glyf", "loca", "head", "hhea", "hmtx", "maxp", "name", "OS/2", "post",
+                "CFF ", "CFF2", "fvar", "gvar", "HVAR", "MVAR", "avar", "STAT", "COLR", "CPAL", "MATH", "kern", "BASE"):
+        ttFont.getTableClass(tag)
+    from . import hb, otl_project, fonts  # noqa: F401
+
+
 def run(chk):
+    _preload()
     chk.rule = ("one case = (font, request, options) pushed through the real Subsetter; distinct by (font, request, options); "
                 "non-trivial = the request removes at least one glyph and keeps at least one besides .notdef")
     thorough = chk.tier == "thorough"
     # ---- (M) --------------------------------------------------------------------
     gens = run_model(chk)
     # ---- (R) --------------------------------------------------------------------
-    nR = len(gens) if thorough else min(len(gens), 2500)
-    idxs = sorted(chk.rng.sample(range(len(gens)), nR))
+    # quick tier: a seeded sample stratified by what the case asks of the closure (TLC emitted w = number of glyphs the
+    # GSUB closure must add): nested-lookup closures, other closures, no closure
+    def stratum(c):
+        ctx = any(lk["ty"] == "ctx" for lk in c["font"]["L"]["gsub"]["lookups"])
+        return 0 if (c.get("w", 0) > 0 and ctx) else 1 if c.get("w", 0) > 0 else 2
+
+    quota = [len(gens)] * 3 if thorough else [1800, 900, 900]
+    if os.environ.get("VERIF_C07_NR"):  # development aid
+        quota = [int(os.environ["VERIF_C07_NR"]) // 3] * 3
+    idxs = []
+    for st in range(3):
+        pool = [k for k in range(len(gens)) if stratum(gens[k]) == st]
+        chk.notes["model_cases_stratum_%d" % st] = len(pool)
+        idxs += chk.rng.sample(pool, min(quota[st], len(pool)))
+    idxs.sort()
     res = common.pmap(gen_job, [(gens[k], chk.seed, k) for k in idxs], chunksize=8)
     fonts, traces, fkey = [], [], {}
     for r in res:
@@ -1040,10 +1133,22 @@ def run(chk):
             files += [(p, i) for i in range(nf)]
         else:
             files.append((p, -1))
+    # whole-font TTX of the corpus: the subsetter's own test inputs and every variable font (the binaries hold only
+    # five tiny variable fonts, all with an explicit HVAR advance map)
+    for p in F.whole_font_ttx():
+        with open(p, "rb") as f:
+            isvar = b"<fvar>" in f.read()
+        if isvar or os.sep + os.path.join("Tests", "subset", "data") + os.sep in p:
+            files.append((p, -1))
+    if os.environ.get("VERIF_C07_FILTER"):  # development aid: comma-separated substrings of corpus paths
+        subs = os.environ["VERIF_C07_FILTER"].split(",")
+        files = [(p, i) for p, i in files if any(x in p for x in subs)]
     nreq = 10 if thorough else 6
-    jobs = [(p, i, chk.seed, optrows, nreq, 60 if thorough else 30) for p, i in files]
+    # the 214 AOTS fonts (100 glyphs, one lookup type each) get one request fewer in the quick tier
+    jobs = [(p, i, chk.seed, optrows, nreq - 1 if (not thorough and os.sep + "aots" + os.sep in p) else nreq, 60 if thorough else 30)
+            for p, i in files]
     # big fonts first so that the pool is balanced
-    jobs.sort(key=lambda j: -os.path.getsize(j[0]))
+    jobs.sort(key=lambda j: -os.path.getsize(j[0]) * (1 if j[0].endswith(".ttx") else 8))
     res = common.pmap(corpus_job, jobs, chunksize=1)
     fonts, traces = [], []
     unsup = {}
@@ -1101,10 +1206,9 @@ def replay(chk, rep):
         fonts, t = [r["font"]], r["trace"]
     else:
         path = os.path.join(os.path.dirname(common.TESTS), rp["path"])
-        with open(path, "rb") as f:
-            data = f.read()
-        pf, _ = project_font(TTFont(io.BytesIO(data), fontNumber=rp["idx"]))
-        t, _sk = record_case(data, rp["idx"], pf, rp["req"], rp["opts"], random.Random("replay"), "V", rp["path"], nprobe=60)
+        data = corpus_bytes(path)
+        pf, _uns = project_font(TTFont(io.BytesIO(data), fontNumber=rp["idx"]))
+        t, _sk = record_case(data, rp["idx"], pf, rp["req"], rp["opts"], random.Random("replay"), "V", rp["path"], nprobe=60, esc=escapes(_uns))
         t["replay"] = rp
         fonts = [_font_for_tlc(pf, False)]
     t["font"] = 1
